@@ -9,7 +9,7 @@ from ..probe import Session
 PROPERTY = 'C01'
 LEVEL = 'exploration'
 RULE = (
-    'random programs of 1-8 concurrent activities built from timed waits (delay, ==, >=, <, '
+    'random programs of 1-8 concurrent activities (4%: plus a crowd of 70-300 sleepers with pairwise distinct dates) built from timed waits (delay, ==, >=, <, '
     'instant, eternity), nested Scope/until blocks with time notifications and children started '
     'now/after d/at t; dates from a colliding dyadic grid (a quarter of the programs: inexact decimal fractions instead) incl. zero, past, equal and infinite '
     'dates; start times {-5,0,0.5,7,1e6,2**53,1e17} (the last two make small delays vanish in float rounding); every logged resume time is compared with the '
@@ -115,6 +115,17 @@ class TimingGen:
         rng = self.rng
         roots = [{'name': 'r%d' % index, 'steps': self.steps(0)}
                  for index in range(rng.randint(1, 8))]
+        if rng.random() < 0.04:
+            # a crowd: hundreds of distinct dates pending at the same moment, drained slowly
+            order = list(range(rng.choice([70, 130, 300])))
+            rng.shuffle(order)
+            for index in order:
+                steps = [{'op': 'wait', 'n': {'k': 'delay', 'd': 0.125 * (index + 1)},
+                          'id': self.ident('w')}]
+                if index % 3 == 0:
+                    steps.append({'op': 'wait', 'n': {'k': 'ge', 't': self.start + 50 - index
+                                                      * 0.125}, 'id': self.ident('w')})
+                roots.append({'name': 'crowd%d' % index, 'steps': steps})
         return {'objects': {}, 'roots': roots, 'start': self.start, 'till': None}
 
 
